@@ -49,6 +49,16 @@ def rule_p1(chk: Check, ir, I):
         chk.count("P1-bracket-table")
         chk.require(probe.shapes(v) == {want}, "P1-bracket-table", f"{what}:shape", repo.SUBHEADER,
                     f"{what} must become a starred __xonsh__.{fn}(..) call; got {sorted(probe.shapes(v))}")
+        if qual.endswith("pyexpr"):
+            # ... whatever the expression is: a literal tuple / list / constant goes through the same runtime call (which is what
+            # turns its items into strings)
+            for cls in ("Tuple", "List", "Constant", "Call", "ListComp"):
+                v2 = probe.call(I, qual, [probe.node(cls, "E")], {}, with_span=True)
+                want2 = f"Starred(value=Call(func={X(fn)}, args=[<E:{cls}>*], {KW}), ctx=Load)"
+                chk.count("P1-bracket-table")
+                chk.require(probe.shapes(v2) == {want2}, "P1-bracket-table", f"{what}:shape({cls})", repo.SUBHEADER,
+                            f"{what} with a {cls} inside must become a starred __xonsh__.{fn}(..) call like any other expression; got "
+                            f"{sorted(probe.shapes(v2))}")
     # which literal opens which builder in proc_cmd
     pc = ir.rules.get("proc_cmd")
     if pc is None:
@@ -85,11 +95,21 @@ def rule_p2(chk: Check, ix: Index, ir):
         for mk_prev in (FakeTok, node):
             for mk_cur in (FakeTok, node):
                 for pe, cs, want in (((1, 5), (1, 5), True), ((1, 5), (1, 6), False), ((1, 5), (2, 5), False), ((3, 0), (2, 0), False),
-                                     ((2, 5), (2, 5), True)):
+                                     ((2, 5), (2, 5), True), ((1, 5), (2, 0), False), ((1, 0), (2, 0), False), ((1, 5), (1, 4), False)):
                     prev = mk_prev((pe[0] - 1 if pe[0] > 1 else 1, 0), pe)   # a piece that may start on an earlier line
                     cur = mk_cur(cs, (cs[0], cs[1] + 2))
-                    got = constfold.eval_pure_function(f.node, {params[0]: prev, params[1]: cur}, extra={"TokenInfo": FakeTok},
-                                                       data_attrs=("start", "end", "lineno", "col_offset", "end_lineno", "end_col_offset"))
+                    try:
+                        got = constfold.eval_pure_function(f.node, {params[0]: prev, params[1]: cur}, extra={"TokenInfo": FakeTok},
+                                                           data_attrs=("start", "end", "lineno", "col_offset", "end_lineno", "end_col_offset"))
+                    except constfold.PureEvalError:
+                        # second evaluator (statement subset; the tokenizer's lines are available: a word ending its line, no
+                        # continuation character after it)
+                        from .c17 import EvalError as _EvE, _mini_eval as _mini
+                        me = types.SimpleNamespace(_tokenizer=types.SimpleNamespace(get_lines=lambda nums: ["ls -l\n" for _ in nums]))
+                        try:
+                            got = _mini(f.node, {"self": me, params[0]: prev, params[1]: cur, "TokenInfo": FakeTok}, {"get_lines"})
+                        except _EvE as e2:
+                            raise constfold.PureEvalError(str(e2))
                     if bool(got) != want:
                         bad.append((mk_prev.__name__, pe, mk_cur.__name__, cs, got))
     except (constfold.PureEvalError, IndexError) as e:
